@@ -120,6 +120,7 @@ class PathState:
         p.blocks = list(self.blocks)
         p.ncall = self.ncall
         p.eqs = dict(self.eqs)
+        p.origin = getattr(self, "origin", None)
         return p
 
 
@@ -340,6 +341,12 @@ class Exec:
     def _run_path(self, b, pred, p, work, started_heads):
         f = self.f
         origin = b if (pred == "fresh") else None
+        if pred == "fresh":
+            p.origin = b
+        # the head a generic iteration started from stays with the path through forks (branches, selects, residue splits): back at
+        # that head a forked path is continued only when the test is decided to LEAVE the loop (a class of the last iteration);
+        # decided to stay, it ends like any generic iteration - following it would iterate without end (n > 32, n - 32 > 32, ...)
+        own = getattr(p, "origin", None)
         first = True
         while True:
             # loop header handling
@@ -354,7 +361,7 @@ class Exec:
                 follow = True       # continuing in the middle of this block: no loop-head bookkeeping
             elif self.auto and b in self.heads and pred != "fresh" and b != origin:
                 # (a generic iteration that started at this head ends when it comes back to it, decided or not)
-                follow = self._header_decided(p, b, pred)
+                follow = self._header_decided(p, b, pred, exit_only=(b == own))
                 if len(p.blocks) > 6000:
                     raise Broken("irx(auto): path too long in %s" % f.name)
                 if not follow:
@@ -519,8 +526,8 @@ class Exec:
                 return
             raise Broken("irx: unsupported terminator %s in %s" % (t.op, f.name))
 
-    def _header_decided(self, p, b, pred):
-        """would the loop header's exit test be decided by the current (concrete) values?"""
+    def _header_decided(self, p, b, pred, exit_only=False):
+        """would the loop header's exit test be decided by the current (concrete) values?  (exit_only: decided to leave the loop)"""
         f = self.f
         t = f.term(b)
         if t.op != "br" or not t.get("cond"):
@@ -542,7 +549,13 @@ class Exec:
             except Broken:
                 return False
         c = q.env.get(t.ops[0]) if t.ops[0][0] == "i" else self.val(q, t.ops[0])
-        return self._decide(q, c) is not None
+        # entering a loop from outside, only a test decided by concrete values is followed (a helper loop with a constant trip count in
+        # this class); "n != 0, hence n > 0" merely says the first iteration of a data loop happens - the loop is still summarised
+        dec = self._decide(q, c, ranges=(pred in self.heads[b]["blocks"]))
+        if dec is not None and exit_only:
+            succ = t.get("succ")
+            return (succ[0] if dec else succ[1]) not in self.heads[b]["blocks"]
+        return dec is not None
 
     def _header_split(self, p, b, pred):
         """(symbol, candidate values) if the undecided header test compares linear forms over one symbol of small finite range"""
@@ -657,7 +670,7 @@ class Exec:
             d = d.add(Lf({syms[0]: 1}), -coef).add(Lf({qs: cb, rs: 1, 1: -k0}), coef)
         return d
 
-    def _decide(self, p, c):
+    def _decide(self, p, c, ranges=True):
         if isinstance(c, tuple) and c and c[0] == "icmp":
             _, pred, a, b = c
             if not (isinstance(a, (Lf, list)) and isinstance(b, (Lf, list))):
@@ -672,7 +685,7 @@ class Exec:
                 if k is not None and pred in ("eq", "ne"):
                     return (k == 0) == (pred == "eq")
                 # bounds from earlier conditions on the same form
-                r = self._implied(p, pred, d)
+                r = self._implied(p, pred, d) if ranges else None
                 if r is not None:
                     return r
             elif is_word(a) and is_word(b):
@@ -728,6 +741,8 @@ class Exec:
                 lo = max(lo, val + 1)
             elif q == "uge":
                 lo = max(lo, val)
+        while lo in excl and (hi is None or lo <= hi):
+            lo += 1          # x != lo on top of x >= lo
         return lo, hi, excl
 
     def _implied(self, p, pred, d):
